@@ -144,7 +144,7 @@ def C18_R4_Statement : Prop :=
 /-- the program has no statement whose size is decided by the PCR loop
 (`determine_pcr_relative_sizes`): after `translate` every statement has a fixed size -/
 def NoPcrProgram (fs : Files) (lines : List Str) : Prop :=
-  ∀ p ss0 t ss1 ss2, parseLines lines = .ok p → expand fs 64 [] p = .ok ss0 →
+  ∀ p ss0 t ss1 ss2, parseLines lines = .ok p → expand fs (includeFuel fs) [] p = .ok ss0 →
     buildSymTab ss0 0 [] = some t → resolveAll t ss0 = some ss1 → translateAll ss1 = some ss2 →
     allFixed ss2 = true
 
@@ -221,8 +221,8 @@ theorem noPcrProgram_of_check {fs : Files} {ls : List Str} (h : noPcrB ls = true
   unfold noPcrB at h
   rw [hp] at h
   simp only [Bool.and_eq_true, List.all_eq_true, Bool.not_eq_true'] at h
-  have hpl := expand_plain fs 63 [] p h.1
-  rw [show (63 : Nat) + 1 = 64 from rfl, he] at hpl
+  have hpl := expand_plain fs fs.length [] p h.1
+  rw [show fs.length + 1 = includeFuel fs from rfl, he] at hpl
   cases hpl
   have h3 := h.2
   rw [h0] at h3; dsimp only at h3
